@@ -72,15 +72,52 @@ pub fn child_main() -> i32 {
     if std::io::stdin().read_to_end(&mut input).is_err() {
         return 2;
     }
+    // split the frames first
+    let mut frames: Vec<&[u8]> = Vec::new();
     let mut at = 0;
-    let out = std::io::stdout();
-    let mut out = out.lock();
     while at + 4 <= input.len() {
         let len = u32::from_le_bytes([input[at], input[at + 1], input[at + 2], input[at + 3]]) as usize;
         at += 4;
-        let b = &input[at..at + len];
+        frames.push(&input[at..at + len]);
         at += len;
-        let _ = writeln!(out, "{}", lib_uuid(b).unwrap_or_else(|e| format!("ERR {e}")));
+    }
+    // a process has exactly one "first call": 16 threads released together make the very first uuid() calls of this
+    // process (thread t on input t mod k); what they get is compared with the sequential answers below
+    let k = frames.len().min(16);
+    let mut raced: Vec<Vec<String>> = vec![Vec::new(); k];
+    if k > 0 {
+        let gate = std::sync::atomic::AtomicUsize::new(0);
+        let results: Vec<(usize, String)> = std::thread::scope(|sc| {
+            let hs: Vec<_> = (0..16usize)
+                .map(|t| {
+                    let (frames, gate) = (&frames, &gate);
+                    sc.spawn(move || {
+                        gate.fetch_add(1, std::sync::atomic::Ordering::AcqRel);
+                        while gate.load(std::sync::atomic::Ordering::Acquire) < 16 {
+                            std::hint::spin_loop();
+                        }
+                        (t % k, lib_uuid(frames[t % k]).unwrap_or_else(|e| format!("ERR {e}")))
+                    })
+                })
+                .collect();
+            hs.into_iter().filter_map(|h| h.join().ok()).collect()
+        });
+        for (i, u) in results {
+            raced[i].push(u);
+        }
+    }
+    let out = std::io::stdout();
+    let mut out = out.lock();
+    for (i, b) in frames.iter().enumerate() {
+        let seq = lib_uuid(b).unwrap_or_else(|e| format!("ERR {e}"));
+        match raced.get(i).and_then(|rs| rs.iter().find(|r| **r != seq)) {
+            Some(r) => {
+                let _ = writeln!(out, "{r} (answer of a thread racing the first uuid() call of the process; sequentially {seq})");
+            }
+            _ => {
+                let _ = writeln!(out, "{seq}");
+            }
+        }
     }
     0
 }
